@@ -12,25 +12,41 @@ import SafeNet.Model.SelfEnc
 namespace SafeNet.Model.ClientRead
 open SafeNet.Model.SelfEnc
 
-/-- `RecordKind` as far as these paths distinguish: `other` = the `…WithPayment` kinds. -/
+/-- `RecordKind`: `other` = the `…WithPayment` kinds. -/
 inductive Kind where
   | chunk
   | scratchpad
+  | register
+  | transaction
   | other
   deriving DecidableEq, Repr
 
-/-- A deserialised `Scratchpad`: claimed owner (the address field), counter, `is_valid()`, content version. -/
+/-- A deserialised `Scratchpad`: claimed owner (the address field), counter, `is_valid()`, content version, and
+`data_encoding` as delivered (`enc`; `fetch_and_decrypt_vault` hands it to the caller as the vault's content type).
+`encOwner` is a ghost field no model function reads: the content type the owner gave the pad when signing it. The
+signature covers counter ‖ hash(encrypted data) only, so `valid` says nothing about `enc`. -/
 structure Pad where
   owner : Nat
   ctr : Nat
   valid : Bool
   ver : Nat
+  enc : Nat := 7
+  encOwner : Nat := 7
+  deriving DecidableEq, Repr
+
+/-- A deserialised `SignedRegister`: the record key its own address maps to, `verify()`, an id of its content. -/
+structure Reg where
+  key : Nat
+  valid : Bool
+  id : Nat
   deriving DecidableEq, Repr
 
 /-- What follows the two header bytes of a record value. -/
 inductive Body (B : Type) where
   | chunk (value : B)
   | pad (p : Pad)
+  | reg (g : Reg)
+  | txs (ts : List Nat)   -- a `Vec<Transaction>` (ids; nothing about a transaction is checked on these paths)
   | junk
   | empty
 
@@ -55,6 +71,18 @@ def padOf (r : Rec B) : Option Pad :=
   match r.body with
   | .pad p => some p
   | _ => none
+
+/-- `try_deserialize_record::<SignedRegister>` -/
+def regOf (r : Rec B) : Option Reg :=
+  match r.body with
+  | .reg g => some g
+  | _ => none
+
+/-- `get_transactions_from_record`: the header must say `Transaction` and the body decode as `Vec<Transaction>` -/
+def txsOf (r : Rec B) : Option (List Nat) :=
+  match headerOf r, r.body with
+  | some .transaction, .txs ts => some ts
+  | _, _ => none
 
 /-- `GetRecordError`; the split error carries the result map in `values()` iteration order. -/
 inductive NetErr (B : Type) where
@@ -94,24 +122,60 @@ def splitStep (chk : Bool) (padKey : Nat → Nat) (rkey : Nat) (st : Option Kind
         | none => (some kind, some p)
     | _ => (some kind, st.2)
 
-/-- `handle_split_record_error`: the valid scratchpad of the highest count (first such in iteration order) among those
-that belong to the requested key (if `chk`), re-serialised under a `Scratchpad` header; nothing when the map has a
-single entry. -/
-def handleSplit (chk : Bool) (padKey : Nat → Nat) (rkey : Nat) (m : List (Rec B)) : Option (Rec B) :=
+/-- the scratchpad part of `handle_split_record_error`: the valid scratchpad of the highest count (first such in visiting
+order) among those that belong to the requested key (if `chk`), re-serialised under a `Scratchpad` header -/
+def handleSplitPads (chk : Bool) (padKey : Nat → Nat) (rkey : Nat) (m : List (Rec B)) : Option (Rec B) :=
+  match (m.foldl (splitStep chk padKey rkey) (none, none)).2 with
+  | some p => some ⟨some .scratchpad, .pad p⟩
+  | none => none
+
+/-- the kind `handle_split_record_error` expects: that of the first record (in visiting order) with a parsable header -/
+def firstKind (m : List (Rec B)) : Option Kind := (m.filterMap headerOf).head?
+
+/-- the transactions accumulated from the records under a `Transaction` header (a set: listed without repetition) -/
+def unionTxs (m : List (Rec B)) : List Nat := ((m.filterMap txsOf).flatten).eraseDups
+
+/-- the registers collected by the `Register` arm: decodable, (with `regChk`) living at the key being read, verified -/
+def collectedRegs (regChk : Bool) (rkey : Nat) (m : List (Rec B)) : List Reg :=
+  ((m.filter (fun r => headerOf r == some .register)).filterMap regOf).filter
+    (fun g => (!regChk || g.key == rkey) && g.valid)
+
+/-- `handle_split_record_error` (nothing when the map has a single entry). The first parsable header dictates the kind;
+records of any other kind are skipped. `Transaction`: more than one accumulated transaction ⇒ they are returned as one
+`Transaction` record. `Register`: the collected registers merged into the first (the merge itself is C05's; here only
+that the answer is a `Register` record). `Scratchpad`: `handleSplitPads`. Other kinds: nothing. -/
+def handleSplit (chk regChk : Bool) (padKey : Nat → Nat) (rkey : Nat) (m : List (Rec B)) : Option (Rec B) :=
   if m.length > 1 then
-    match (m.foldl (splitStep chk padKey rkey) (none, none)).2 with
-    | some p => some ⟨some .scratchpad, .pad p⟩
-    | none => none
+    match firstKind m with
+    | some .transaction => if (unionTxs m).length > 1 then some ⟨some .transaction, .txs (unionTxs m)⟩ else none
+    | some .register =>
+      match collectedRegs regChk rkey m with
+      | g :: _ => some ⟨some .register, .reg g⟩
+      | [] => none
+    | _ => handleSplitPads chk padKey rkey m
   else none
 
 /-- `Network::get_record_from_network(rkey, cfg)` with `retry_strategy: None` -/
-def netGet (chk : Bool) (padKey : Nat → Nat) (rkey : Nat) : Reply B → Except (NetErr B) (Rec B)
+def netGetWith (chk regChk : Bool) (padKey : Nat → Nat) (rkey : Nat) : Reply B → Except (NetErr B) (Rec B)
   | .ok r => .ok r
   | .err (.split m) =>
-    match handleSplit chk padKey rkey m with
+    match handleSplit chk regChk padKey rkey m with
     | some r => .ok r
     | none => .error (.split m)
   | .err e => .error e
+
+/-- … with the `Register` arm as it is in the source -/
+def netGet (chk : Bool) (padKey : Nat → Nat) (rkey : Nat) (reply : Reply B) : Except (NetErr B) (Rec B) :=
+  netGetWith chk Gen.ClientRead.netSplitRegChecksKey padKey rkey reply
+
+/-- the split branch of `accumulate_get_record_found` (the swarm driver, once the quorum is reached with more than one
+version in the result map `m`): the union of the transactions is answered as ONE record — with `needAll` only when every
+version decoded as transactions, without it as soon as any did (the other versions were silently left out) — and
+otherwise the caller gets `SplitRecord` with all versions -/
+def kadSplitReply (needAll : Bool) (m : List (Rec B)) : Reply B :=
+  if (!needAll || m.all (fun r => (txsOf r).isSome)) && !(unionTxs m).isEmpty then
+    .ok ⟨some .transaction, .txs (unionTxs m)⟩
+  else .err (.split m)
 
 def netErrClass : NetErr B → String
   | .notFound => "nf"
@@ -175,8 +239,8 @@ def latestPads (key : Nat) (m : List (Rec B)) : List Pad :=
 
 /-- `get_vault_from_network` for the secret key whose public key is `key`, over a network layer whose split handling
 does (`chk`) or does not compare a pad's own address with the key being read -/
-def getVaultWith (chk : Bool) (padKey : Nat → Nat) (key : Nat) (reply : Reply B) : Except VaultErr Pad :=
-  match netGet chk padKey (padKey key) reply with
+def getVaultWith2 (chk regChk : Bool) (padKey : Nat → Nat) (key : Nat) (reply : Reply B) : Except VaultErr Pad :=
+  match netGetWith chk regChk padKey (padKey key) reply with
   | .ok record =>
     match padOf record with
     | none => .error .invalid
@@ -188,6 +252,13 @@ def getVaultWith (chk : Bool) (padKey : Nat → Nat) (key : Nat) (reply : Reply 
       | [] => .error .missing
     else .error .invalid
   | .error e => .error (.network (netErrClass e))
+
+/-- … with the `Register` arm of the split handling as it is in the source -/
+def getVaultWith (chk : Bool) (padKey : Nat → Nat) (key : Nat) (reply : Reply B) : Except VaultErr Pad :=
+  getVaultWith2 chk Gen.ClientRead.netSplitRegChecksKey padKey key reply
+
+/-- `fetch_and_decrypt_vault`: the decrypted data (here: the pad) and `pad.data_encoding()` as the content type -/
+def contentTypeOf (p : Pad) : Nat := p.enc
 
 /-- `get_vault_from_network` over the network layer as it is in the source -/
 def getVault (padKey : Nat → Nat) (key : Nat) (reply : Reply B) : Except VaultErr Pad :=
